@@ -131,7 +131,10 @@ def run(ctx):
     # ------------------------------------------------------------------ Layer A: structural correspondence -------
     # (separate from the validation above; see harness/layera.py)
     failed_idx = set(c.idx for c in live if reports[c.idx][1] != 0)
+    import time as _time0
+    _t0la = _time0.time()
     la_cov = layera.run(ctx, cases, validator_failed=failed_idx)
+    la_cov.setdefault("layerA_seconds", {})["layera"] = round(_time0.time() - _t0la, 1)
     # further per-compiler Layer A correspondences, one module per compiler (harness/layera_<x>.py: run(ctx, cases,
     # validator_failed) -> dict of evidence keys prefixed layerA_<x>_); a module that is absent is skipped
     import importlib
@@ -140,7 +143,10 @@ def run(ctx):
             _mod = importlib.import_module("harness." + _m)
         except ModuleNotFoundError:
             continue
+        import time as _time
+        _t = _time.time()
         la_cov.update(_mod.run(ctx, cases, validator_failed=failed_idx))
+        la_cov.setdefault("layerA_seconds", {})[_m] = round(_time.time() - _t, 1)
     # ------------------------------------------------------------------ end of Layer A block ----------------------
     if not ok_proofs:
         ctx.proof_broken()
